@@ -142,6 +142,67 @@ fn span_loc<'tcx>(tcx: TyCtxt<'tcx>, sp: Span) -> (String, usize, usize, usize) 
     (file, lo.line, lo.col.0, hi.line)
 }
 
+// ---------------------------------------------------------------- constants that are tables of strings
+
+struct StrCollector<'a, 'tcx> {
+    tcx: TyCtxt<'tcx>,
+    depth: usize,
+    out: &'a mut Vec<String>,
+}
+
+impl<'a, 'tcx> rustc_middle::mir::visit::Visitor<'tcx> for StrCollector<'a, 'tcx> {
+    fn visit_const_operand(&mut self, c: &rustc_middle::mir::ConstOperand<'tcx>, _loc: rustc_middle::mir::Location) {
+        let cty = c.const_.ty();
+        let is_str_ref = match cty.kind() {
+            ty::Ref(_, inner, _) => inner.is_str(),
+            _ => false,
+        };
+        if is_str_ref {
+            let d = with_no_trimmed_paths!(format!("{}", c.const_));
+            if d.len() < 300 {
+                self.out.push(d);
+            }
+        }
+        if let Const::Unevaluated(uv, _) = c.const_ {
+            collect_const_strs(self.tcx, uv.def, uv.promoted.map(|p| p.as_usize()), self.depth + 1, self.out);
+        }
+    }
+}
+
+fn collect_const_strs<'tcx>(tcx: TyCtxt<'tcx>, def: DefId, promoted: Option<usize>, depth: usize, out: &mut Vec<String>) {
+    use rustc_middle::mir::visit::Visitor;
+    if depth > 3 || !def.is_local() || out.len() > 200 {
+        return;
+    }
+    match promoted {
+        Some(i) => {
+            let proms = tcx.promoted_mir(def);
+            if let Some(body) = proms.iter().nth(i) {
+                let mut v = StrCollector { tcx, depth, out };
+                v.visit_body(body);
+            }
+        }
+        None => {
+            match tcx.def_kind(def) {
+                DefKind::Const { .. } | DefKind::AssocConst { .. } | DefKind::InlineConst | DefKind::AnonConst | DefKind::Static { .. } => {}
+                _ => return,
+            }
+            if !tcx.is_mir_available(def) && !matches!(tcx.def_kind(def), DefKind::Const { .. } | DefKind::AssocConst { .. } | DefKind::Static { .. }) {
+                return;
+            }
+            let body = tcx.mir_for_ctfe(def);
+            let mut v = StrCollector { tcx, depth, out };
+            v.visit_body(body);
+            // constants promote their borrowed temporaries too
+            let proms = tcx.promoted_mir(def);
+            for body in proms.iter() {
+                let mut v = StrCollector { tcx, depth: depth + 1, out };
+                v.visit_body(body);
+            }
+        }
+    }
+}
+
 // ---------------------------------------------------------------- places / operands
 
 struct Cx<'a, 'tcx> {
@@ -265,6 +326,12 @@ impl<'a, 'tcx> Cx<'a, 'tcx> {
                 o.s("const_def", &canon(tcx, uv.def));
                 if let Some(p) = uv.promoted {
                     o.n("promoted", p.as_u32() as i128);
+                }
+                // string literals inside the referenced constant (tables such as `const KEYWORDS: [&str; 4]`)
+                let mut strs: Vec<String> = Vec::new();
+                collect_const_strs(tcx, uv.def, uv.promoted.map(|p| p.as_usize()), 0, &mut strs);
+                if !strs.is_empty() {
+                    o.raw("strs", &arr(strs.iter().map(|x| js(x))));
                 }
             }
             _ => {}
